@@ -26,6 +26,12 @@ CLAIMED = {
         "field for concatenated or modified tables.",
         "Holds on the explored region only; eight text formats (BAM pass-through is exercised by the C16 check). Trusts pbt/formats.py record serializers. Tolerances: float re-formatting within 8 ulp, '.' placeholder may become 0 in a replaced column, an empty SAM tags field may be written as a trailing tab.",
         "Hypothesis-generated operation programs interpreted against a byte-level reference model"),
+    "C05": (
+        "Differential model-based histories: the same generated file is read lazily and eagerly (whole or chunked) and a Hypothesis-drawn "
+        "program of public operations (len, field access in any order, indexing, concatenation, bnp.replace, attribute assignment, tolist, "
+        "write) runs on both; after every step values and written bytes must be equal, or both sides must raise.",
+        "Holds on the explored region only; the eager table is the reference, so a defect common to both modes is invisible here (C02/C03 cover those). One open finding ('.' score placeholder) is excluded by a narrow bucket. Integer row access that fails inside npstructures under NumPy 2 is counted as a tolerant class.",
+        "Hypothesis-generated operation programs, differential oracle (lazy vs eager)"),
     "C15": (
         "Fault injection over generated inputs: one format violation of each class is injected at every record position of a well-formed file; "
         "exhaustive over small files x every chunk size x lazy/eager x plain/gzip, sampled for larger files of nine formats. Oracle: an exception "
